@@ -550,8 +550,11 @@ impl CraneliftCompiler {
                     let safe_rhs = bcx.ins().select(rhs_is_zero, one, rhs);
                     let div_res = bcx.ins().urem(lhs, safe_rhs);
 
-                    let res = bcx.ins().select(rhs_is_zero, lhs, div_res);
-                    self.set_dst32(bcx, &insn, res);
+                    // Modulo by zero leaves the whole 64-bit destination register unchanged.
+                    let div_res = bcx.ins().uextend(I64, div_res);
+                    let dst = self.insn_dst(bcx, &insn);
+                    let res = bcx.ins().select(rhs_is_zero, dst, div_res);
+                    self.set_dst(bcx, &insn, res);
                 }
                 ebpf::XOR32_IMM => {
                     // reg[_dst] = (reg[_dst] as u32             ^ insn.imm  as u32) as u64,
